@@ -1,7 +1,8 @@
 #!/usr/bin/env python3
 """Copy confirmed seeded changes from /tmp/seed_out/<P>/v<k> into /verif/seeded/<P>-v<k>/ with a merged meta.json."""
 import json, os, shutil, sys, glob
-SRC = "/tmp/seed_out"
+SRC = os.environ.get("SEED_DIR", "/tmp/seed_out")
+TAG = os.environ.get("SEED_TAG", "")   # e.g. "r2" -> C06-r2v1
 DST = "/verif/seeded"
 for d in sorted(glob.glob(f"{SRC}/C*/v*")):
     p, v = d.split("/")[-2], d.split("/")[-1]
@@ -15,7 +16,7 @@ for d in sorted(glob.glob(f"{SRC}/C*/v*")):
     if not ok:
         print("not confirmed:", d)
         continue
-    out = f"{DST}/{p}-{v}"
+    out = f"{DST}/{p}-{TAG}{v}"
     os.makedirs(out, exist_ok=True)
     shutil.copy(f"{d}/patch.diff", f"{out}/patch.diff")
     shutil.copy(f"{d}/demo.py", f"{out}/demo.py")
@@ -36,6 +37,7 @@ for d in sorted(glob.glob(f"{SRC}/C*/v*")):
         },
         "caught_by": {k: {"exit": x["exit"], "findings": x["findings"][:3]} for k, x in fired.items()},
         "own_check_fires": p in fired and fired[p]["exit"] == 1,
+        "first_contact": {"own": ("fires" if p in fired and fired[p]["exit"] == 1 else "exit2" if p in fired else "silent"), "others": sorted(k for k in fired if k != p)},
     })
     json.dump(meta, open(f"{out}/meta.json", "w"), indent=1)
 print(len(glob.glob(f"{DST}/*")), "seeded changes stored")
